@@ -218,6 +218,7 @@ Record case := {
   limit : N; cand : N;
   fast : bool;               (* score fast path (default plan / [_score desc]) *)
   exhaustive : bool;         (* no WAND/BMW pruning on this request shape *)
+  strategy : N;              (* execution: 0 bm25, 1 wand, 2 bmw *)
   gen : N; plan : N; nfields : N;
   pages : list opage;        (* the walk, page by page *)
   overrun : bool;            (* the walk did not end within |full| + 2 pages *)
@@ -311,5 +312,13 @@ Definition wf (c : case) : bool :=
   list_eqb N.eqb (sort (concat (segs c))) (map N.of_nat (seq 0 (length (full c))))
   && (0 <? limit c).
 
+(** Known class 1: pruned execution with block-max bounds ([execution = bmw] on the score fast path
+    with scoring terms).  [wand_loop] selects the pivot with the bound of each term's *current* block,
+    which does not bound later blocks of that term, so a segment's top-k can miss documents (a defect
+    of query/wand.rs, outside this model: the model assumes every segment ranks its accepted documents
+    exactly). *)
+Definition known_class (c : case) : N :=
+  if negb (exhaustive c) && (strategy c =? 2) then 1 else 0.
+
 Definition check_case (c : case) : N :=
-  if wf c then verdict (corr c) (spec c) 0 else 2.
+  if wf c then verdict (corr c) (spec c) (known_class c) else 2.
